@@ -62,6 +62,47 @@ def build_T6(tree):
     return text, span_sha(body[:cut]) + hashlib.sha256((_norm(body[cut]) + padtxt).encode()).hexdigest()[:8]
 
 
+def build_T4o(tree):
+    """Emptiness of a float (FRACTIONAL) mask as judged by the constructor for omit_empty_frames, and the value the
+    constructor stores for the same pixel (`_get_segment_pixel_array`): two expressions in two places that must agree
+    ("tile omitted => every stored value of the tile is 0")."""
+    cls = find_func(tree, 'Segmentation')
+    init = find_func(cls, '__init__')
+    occ = None
+    for node in ast.walk(init):
+        if isinstance(node, ast.If) and _norm(node.test) == "pixel_array.dtype.kind=='f'":
+            a = [st for st in node.body if isinstance(st, ast.Assign) and _norm(st.targets[0]) == 'occupied_array']
+            b = [st for st in node.orelse if isinstance(st, ast.Assign) and _norm(st.targets[0]) == 'occupied_array']
+            if len(a) == 1 and len(node.body) == 1 and len(b) == 1 and _norm(b[0].value) == 'pixel_array':
+                occ = a[0]
+    if occ is None:
+        raise Unsupported("Segmentation.__init__: `if pixel_array.dtype.kind == 'f': occupied_array = ... else: occupied_array = "
+                          "pixel_array` not found")
+    blk = [ast.parse(ast.unparse(occ)).body[0], ast.parse('return occupied_array').body[0]]
+    for st in blk:
+        ast.fix_missing_locations(st)
+    t1 = translate_block(blk, 'fractionOccupied', [('pixel_array', 'rat'), ('max_fractional_value', 'int')], {},
+                         doc='`Segmentation.__init__`, omit_empty_frames: is a pixel of a float mask counted as occupied?')
+    gsp = find_func(cls, '_get_segment_pixel_array')
+    sto = None
+    for node in ast.walk(gsp):
+        if isinstance(node, ast.If) and _norm(node.test) == 'pixel_array.dtypein(np.float32,np.float64)':
+            asg = [st for st in node.body if isinstance(st, ast.Assign) and _norm(st.targets[0]) == 'segment_array']
+            # [selection of the segment (inside an if), the rounding, the cast]
+            if len(asg) >= 2 and _norm(asg[-1].value) == 'segment_array.astype(dtype)':
+                sto = asg[-2]
+    if sto is None:
+        raise Unsupported('_get_segment_pixel_array: float branch `segment_array = <rounding>; segment_array = segment_array.astype(dtype)` not found')
+    blk2 = [ast.parse(ast.unparse(sto)).body[0], ast.parse('return segment_array').body[0]]
+    for st in blk2:
+        ast.fix_missing_locations(st)
+    t2 = translate_block(blk2, 'fractionStored', [('segment_array', 'rat'), ('max_fractional_value', 'int')], {},
+                         doc='`Segmentation._get_segment_pixel_array`, float input: the value stored for a pixel (before the cast to '
+                             'the integer pixel type, which is exact on integral values in range)')
+    return t1 + '\n\n' + t2, span_sha([occ]) + span_sha([sto])[:8]
+
+
 TARGETS = {
     'T6': {'file': 'spatial.py', 'build': build_T6},
+    'T4o': {'file': 'seg/sop.py', 'build': build_T4o, 'imports': ['HdVerif.Model.Round']},
 }
